@@ -1,10 +1,16 @@
 From Coq Require Import extraction.Extraction extraction.ExtrOcamlBasic.
-From TU Require Import Base C14_Model C14_Seam.
-Definition run := run_C14.
+From TU Require Import Base C14_Model C14_Seam C14_Seeded.
+(** [run] is the SEEDED model: it reads only (mode, text, seed, prefix/suffix counts, the two
+    probabilities as binary64 values) and computes the r-stream (ChaCha8, seed_from_u64,
+    random::<f64>: RNG_Model.v) and the thresholds of the f64 comparison itself. *)
+Definition run := run_C14s.
 Definition check := check_C14.
-(** exact on the outputs; in grapheme mode additionally: the cluster lists of the text and of the
-    corrupted text are [segment] of their concatenation ([uax29_agree]), the harness' safety flag
-    is the model's [corrupt_safe], and inside the domain of [corrupt_labels_u] the KF1 class flag
-    is off ([xcheck]) *)
-Definition agree (inp m i : val) : bool := agree_C14 inp m i.
+(** three lines, all must hold: (1) the seeded run equals the implementation's output exactly;
+    (2) the oracle model [run_C14] on the r-stream the harness replicated agrees too, and in
+    grapheme mode the cluster lists of the text and of the corrupted text are [segment] of their
+    concatenation, the harness' safety flag is the model's [corrupt_safe], and inside the domain
+    of [corrupt_labels_u] the KF1 class flag is off ([agree_C14]); (3) the oracle fields are the
+    model's own: replicated stream = [stream seed], integer thresholds = ceil(p * 2^53) clamped
+    ([seeded_xcheck]) *)
+Definition agree (inp m i : val) : bool := agree_C14s inp m i.
 Extraction "model.ml" run check agree.
